@@ -24,8 +24,8 @@ TECHNIQUE = "CrossHair-enumerated symbolic configuration bits over the real find
 FUNCTIONS = ["codebasin/finder.py:find", "codebasin/finder.py:ParserState.associate/insert_file", "codebasin/platform.py:Platform.*",
              "codebasin/preprocessor.py:IncludeNode/PragmaNode/DefineNode/UndefNode.evaluate_for_platform"]
 STUBS = ["vp.memfs mounted (file_parser.open, os façade, finder.tqdm identity, loggers -> recorder)"]
-ASSUMPTIONS = ["-p filtering is modelled as restricting the configuration dict to the selected platforms (what __main__/tree do after "
-               "loading); the TOML/CLI parsing around it is outside the claim",
+ASSUMPTIONS = ["iso/: -p filtering is modelled as restricting the configuration dict to the selected platforms (what __main__/tree do after "
+               "loading); cli/: the real __main__._main and tree.cli run with -p on a scratch tree up to their call of finder.find (a probe)",
                "once the symbolic bits are decided all data is concrete and the real code runs untraced on that leaf"]
 BOUNDS = {"quick": "9 scenario templates x 3 commands; every assignment of commands to 3 platforms, 2 of the 6 orders, 3 of the 8 platform subsets, 2 -D bits",
           "thorough": "all 6 orders and all 8 subsets"}
@@ -239,6 +239,49 @@ def h_iso(a0: int, a1: int, a2: int, perm: int, sel: int, d0: bool, d1: bool) ->
     return why is None
 
 
+# --------------------------------------------------------------------------
+# cli/: -p on the two command-line tools.  The real `codebasin.__main__._main` and `codebasin.tree.cli` run on a scratch
+# tree up to the point where they hand the configuration to finder.find (replaced by a probe, see c10._cli_members).
+
+CLI_PLATS = ["p", "q", "r"]
+
+
+def h_cli(m0: bool, m1: bool, m2: bool, rev: bool, tool: int) -> bool:
+    """
+    pre: 0 <= tool < 2
+    post: _
+    """
+    from vp.harness import c10
+
+    tl = None
+    for j in range(2):
+        if tool == j:
+            tl = j
+    mask = [bool(m0), bool(m1), bool(m2)]
+    sel = [CLI_PLATS[i] for i in range(3) if mask[i]]
+    if rev:
+        sel = sel[::-1]
+    STATS["compared"] += 1
+    if P.get("_twin"):
+        return False
+    why = None
+    with scen.untraced():
+        try:
+            got = c10._cli_members(tl, [], [], platforms=CLI_PLATS, select=sel)
+            want = sorted(sel) if sel else CLI_PLATS
+            if "platforms" not in got:
+                why = "the tool never reached finder.find"
+            elif got["platforms"] != want:
+                why = "-p %s: platforms handed to finder.find are %s, expected %s" % (sel, got["platforms"], want)
+            elif any(v != ["a.c"] for v in got["entries"].values()):
+                why = "-p %s: commands of the selected platforms changed: %s" % (sel, got["entries"])
+        except Exception as e:
+            why = "exception " + repr(e)
+    if P.get("_replay"):
+        LAST.update(tool=["codebasin", "codebasin.tree"][tl], selected=sel, why=why)
+    return why is None
+
+
 def replay(obd, cex):
     import sys
 
@@ -246,6 +289,14 @@ def replay(obd, cex):
     mod.P = dict(obd["params"], _twin=False, _replay=True)
     mod.LAST = {}
     args, kw = cex
+    if obd["func"] == "h_cli":
+        # already the real tools on a real scratch tree: a native re-run is the replay
+        try:
+            ok = h_cli(*args, **kw)
+        except Exception as e:
+            ok = False
+            LAST.update(exception=repr(e))
+        return dict(reproduced=(ok is False), detail=dict(LAST))
     try:
         ok = h_iso(*args, **kw)
     except Exception as e:
@@ -279,6 +330,7 @@ def obligations(tier, known):
         for fx in range(3):
             obs.append(Ob(id="iso/%s/a0=%d" % (t, fx), kind="ch", module=__name__, func="h_iso", params=dict(t=t, fix=fx, nperm=2 if tier == "quick" else 6, nsel=3 if tier == "quick" else 8), timeout=600,
                           group="iso"))
+    obs.append(Ob(id="cli/select", kind="ch", module=__name__, func="h_cli", params={}, timeout=300, group="cli"))
     return obs
 
 
@@ -287,4 +339,4 @@ CLAIM = ("For every assignment of three commands to up to three platforms, every
          "full analysis equals the union of fresh single-command analyses, the reference preprocessor, its own permutations and the "
          "projection of itself - exhausted by CrossHair.")
 LEVEL_NOTE = ("Trusted: CrossHair/z3 for the enumeration, vp/memfs.py, vp/refs/ref_cpp.py (gcc -E on replay). Bounded: 9 templates, 3 commands, "
-              "3 platforms. CLI -p parsing is outside.")
+              "3 platforms. cli/: every subset of 3 platforms given with -p (both orders) x 2 tools; the rest of the CLI is outside.")
